@@ -330,6 +330,19 @@ class Sym(Interp):
             # np.asarray(x): the same values (and, for arrays, the same object - aliasing is the ownership domain's business)
             self.fact("call", ctx, n, env, target=d, args=[T(args[0])], kwargs={}, callkind="ext", result=T(args[0]), rawargs=list(args))
             return args[0]
+        # canonical spelling for known signatures: the leading data argument(s) positional, every further parameter by keyword -
+        # np.argsort(a=x) is np.argsort(x), np.zeros((n, p), float) is np.zeros((n, p), dtype=float), np.triu(A, 1) is np.triu(A, k=1)
+        from . import api as _api
+        names = None if d.startswith("numpy.random.") else (_api.SLOTS.get(d) or _api.EXT_SIGNATURES.get(d))
+        if names and not any(isinstance(a, tuple) and a and a[0] == "*" for a in args) and "**" not in kwargs and len(args) <= len(names):
+            npos = _api.EXT_NPOS.get(d, 1)
+            args, kwargs = list(args), dict(kwargs)
+            while len(args) < min(npos, len(names)) and names[len(args)] in kwargs:
+                args.append(kwargs.pop(names[len(args)]))
+            if len(args) > npos and not any(nm in kwargs for nm in names[npos:len(args)]):
+                for nm, a in zip(names[npos:], args[npos:]):
+                    kwargs[nm] = a
+                args = args[:npos]
         impure = d in IMPURE_EXT or (d.startswith("numpy.random.") and d not in ("numpy.random.default_rng", "numpy.random.seed",
                                                                                   "numpy.random.RandomState", "numpy.random.Generator"))
         t = ("ext", d, self.argt(args), self.kwt(kwargs) + (self.draw_tag() if impure else ()))
@@ -367,7 +380,7 @@ class Sym(Interp):
         f = self.fact("call", ctx, n, env, target=func.qname, args=cargs,
                       kwargs=ckw, callkind="repo", result=None, rawargs=list(args),
                       selfobj=selfobj)
-        if self.inline(func) and func.qname not in ctx.stack:
+        if self.inline(func) and func.qname not in ctx.stack and not getattr(func, "cached", False):     # a memoised function is not a transparent helper
             r = super().call_repo(func, selfobj, args, kwargs, n, env, ctx)
             f.result = T(r) if r is not None else NONE
             self.propagate_inplace(func, n, env, ctx)
